@@ -414,7 +414,7 @@ func (x *bkInterp) exec(fr *bkFrame, stmts []ast.Stmt, depth int) bool {
 				// prev, _ = c.objs.Delete(id): the removed object
 				if len(s.Rhs) == 1 {
 					if call, ok := ast.Unparen(s.Rhs[0]).(*ast.CallExpr); ok {
-						if se, ok := ast.Unparen(call.Fun).(*ast.SelectorExpr); ok && x.recvField(fr, se.X) == "objs" && se.Sel.Name == "Delete" {
+						if se, ok := ast.Unparen(call.Fun).(*ast.SelectorExpr); ok && x.recvField(fr, se.X) == "objs" && (se.Sel.Name == "Delete" || se.Sel.Name == "Set") {
 							if id, ok := ast.Unparen(s.Lhs[0]).(*ast.Ident); ok {
 								fr.roles[fr.info.ObjectOf(id)] = "$prev"
 								continue
@@ -690,10 +690,13 @@ func (x *bkInterp) run(t *bkTarget, scen map[string]bool, collect bool) *bkEffec
 }
 
 func ruleDelta(c *Ctx) {
-	setFill := c.Func("internal/collection", "Collection", "setFill")
+	// the two entry points of the bookkeeping, by role: Collection.Set (the replace path: the previous object is what
+	// the primary map hands back) and Collection.Delete; the helpers they call (setFill, fill/unfill, …) are evaluated
+	// in place
+	setFill := c.Func("internal/collection", "Collection", "Set")
 	del := c.Func("internal/collection", "Collection", "Delete")
 	if setFill == nil || del == nil {
-		c.und("anchors", 0, "Collection.setFill or Collection.Delete not found")
+		c.und("anchors", 0, "Collection.Set or Collection.Delete not found")
 		return
 	}
 	colT := c.Pkgs["internal/collection"].Types.Scope().Lookup("Collection")
@@ -719,11 +722,11 @@ func ruleDelta(c *Ctx) {
 			}
 		}
 	}
-	if len(objParams) != 2 {
-		c.und("setFill-shape", setFill.Decl.Pos(), "setFill is expected to take the previous and the new object")
+	if len(objParams) != 1 {
+		c.und("setFill-shape", setFill.Decl.Pos(), "Collection.Set is expected to take the new object")
 		return
 	}
-	tSet := &bkTarget{fn: setFill, roles: map[types.Object]string{objParams[0]: "$prev", objParams[1]: "$obj"}}
+	tSet := &bkTarget{fn: setFill, roles: map[types.Object]string{objParams[0]: "$obj"}}
 	tDel := &bkTarget{fn: del, roles: map[types.Object]string{}}
 	// the conditions both functions test, closed under exchanging the two objects
 	x.run(tSet, nil, true)
